@@ -1,21 +1,21 @@
 use slotted_egraphs::*;
-use verif_harness::langs::A;
+use verif_harness::langs::T;
 fn main() {
-    let start: RecExpr<A> = RecExpr::parse("(let $1 (mul (add 2 (var $3)) (mul 1 0)) 2)").unwrap();
-    let mut eg: EGraph<A> = EGraph::default();
-    eg.add_expr(start);
-    let rws: Vec<Rewrite<A>> = vec![
-        Rewrite::new("comm-mul", "(mul ?a ?b)", "(mul ?b ?a)"),
-        Rewrite::new("add-0", "(add ?a 0)", "?a"),
-        Rewrite::new("let-add", "(let $1 (add ?a ?b) ?c)", "(add (let $1 ?a ?c) (let $1 ?b ?c))"),
-        Rewrite::new("assoc-mul", "(mul (mul ?a ?b) ?c)", "(mul ?a (mul ?b ?c))"),
-        Rewrite::new("let-mul", "(let $1 (mul ?a ?b) ?c)", "(mul (let $1 ?a ?c) (let $1 ?b ?c))"),
-        Rewrite::new("mul-0", "(mul ?a 0)", "0"),
-    ];
-    for i in 0..5 {
-        let t = std::time::Instant::now();
-        let ch = apply_rewrites(&mut eg, &rws);
-        println!("iter {i}: changed={ch} nodes={} classes={} {:.2}s", eg.total_number_of_nodes(), eg.ids().len(), t.elapsed().as_secs_f64());
-        if eg.total_number_of_nodes() > 3000 { break; }
+    // repeated in fresh e-graphs: the iteration order of the group's HashSet differs
+    let mut bad = 0;
+    for round in 0..40 {
+        let mut eg: EGraph<T> = EGraph::default();
+        let add = |eg: &mut EGraph<T>, s: &str| eg.add_expr(RecExpr::parse(s).unwrap());
+        let h = add(&mut eg, "(h (f $1 $2) (f $3 $4))");
+        let k = add(&mut eg, "(f3 $1 $3 $4)");
+        eg.union(&h, &k);
+        let a = add(&mut eg, "(f $1 $2)");
+        let b = add(&mut eg, "(f $2 $1)");
+        eg.union(&a, &b);
+        let x = add(&mut eg, "(h (f $1 $2) (f $3 $4))");
+        let y = add(&mut eg, "(h (f $1 $2) (f $4 $3))");
+        let e = eg.eq(&x, &y);
+        if !e { bad += 1; if bad == 1 { println!("round {round}: h(f12,f34) != h(f12,f43)  x={x:?} y={y:?}"); eg.dump(); } }
     }
+    println!("missing equality in {bad}/40 rounds");
 }
